@@ -320,6 +320,88 @@ class StartProc(TagProc):
         return {'v': {'x': 5}}
 
 
+class Succ(Step):
+    """a = x + 1"""
+    defaults = {'tag': 'succ'}
+
+    def ports_schema(self):
+        return {'v': {'x': {'_default': 0}, 'a': {'_default': 0, '_updater': 'set', '_emit': True}}}
+
+    def next_update(self, timestep, states):
+        return {'v': {'a': states['v']['x'] + 1}}
+
+
+class Tenfold(Step):
+    """b = 10 * a"""
+    defaults = {'tag': 'tenfold'}
+
+    def ports_schema(self):
+        return {'v': {'a': {'_default': 0}, 'b': {'_default': 0, '_updater': 'set', '_emit': True}}}
+
+    def next_update(self, timestep, states):
+        return {'v': {'b': 10 * states['v']['a']}}
+
+
+class ComposerLegacy(Composer):
+    """Steps returned by generate_processes (the older, still supported way),
+    listed against the order their flow gives them: tenfold needs succ."""
+
+    def generate_processes(self, config):
+        return {'tenfold': Tenfold(), 'succ': Succ(), 'p': TagProc({'tag': 'p'})}
+
+    def generate_flow(self, config):
+        return {'tenfold': [('succ',)], 'succ': []}
+
+    def generate_topology(self, config):
+        return {k: {'v': ('v',)} for k in ('tenfold', 'succ', 'p')}
+
+
+def entry_points_legacy_steps(rep):
+    """Steps listed among the processes, with a flow, at the root, embedded at
+    a path and merged at a path: the same simulation through the three entry
+    points, and the same as at the root (b = 10 * (x + 1) at every row)."""
+    for how, path in (('generate', ()), ('generate', ('cell',)), ('generate', ('agents', 'a')),
+                      ('merge', ('agents', 'b'))):
+        rep.evaluations += 1
+        sig = {'kind': 'entry-legacy-steps', 'how': how, 'path': list(path)}
+
+        def make():
+            if how == 'generate':
+                return ComposerLegacy().generate(path=path)
+            c = Composite()
+            c.merge(composite=ComposerLegacy().generate(), path=path)
+            return c
+        rows = {}
+        try:
+            for entry in ('composite', 'parts', 'store'):
+                c = make()
+                if entry == 'composite':
+                    eng = Engine(composite=c, display_info=False)
+                elif entry == 'parts':
+                    eng = Engine(processes=c['processes'], steps=c['steps'], flow=c['flow'],
+                                 topology=c['topology'], display_info=False)
+                else:
+                    eng = Engine(store=c.generate_store(), display_info=False)
+                rows[entry] = strip_prefix(rows_of(eng, 3), path)
+        except Exception as e:
+            rep.violation(dict(sig, what='raised'),
+                          'C16 a composite with steps listed among its processes (%s at %s) '
+                          'raised %r' % (how, path, e), {})
+            continue
+        want = {float(t) if t else 0: {'v': {'x': t, 'a': t + 1, 'b': 10 * (t + 1)}}
+                for t in range(4)}
+        got = {e: {t: r.get('v') for t, r in rows[e].items()} for e in rows}
+        exp = {t: {k: v for k, v in r['v'].items() if k != 'x' or True} for t, r in want.items()}
+        bad = sorted(e for e in got
+                     if {float(t): v for t, v in got[e].items()} != {float(t): v for t, v in exp.items()})
+        if bad:
+            rep.violation(dict(sig, differs=bad),
+                          'C16 steps listed among the processes with the flow tenfold <- succ '
+                          '(%s at %s): the entry points %s emit %r, expected b = 10 * (x + 1) in '
+                          'every row: %r' % (how, path, bad, got[bad[0]].get(3.0), exp.get(3.0)), {})
+        rep.nontrivial.add('entry-legacy-%s-%s' % (how, path))
+
+
 def entry_points_initial_state(rep):
     """The three entry points for a composite whose process defines
     initial_state(): the same simulation through each."""
@@ -583,6 +665,7 @@ def check(prop, tier, seed):
     rep.guard(overrides, rep, what='schema overrides / MetaComposer')
     rep.guard(steps_only, rep, what='steps-only composite')
     rep.guard(entry_points_initial_state, rep, what='entry points with initial_state()')
+    rep.guard(entry_points_legacy_steps, rep, what='entry points with steps among the processes')
     return rep.finish()
 
 
@@ -599,4 +682,5 @@ def replay(prop, path):
         overrides(rep)
         steps_only(rep)
         entry_points_initial_state(rep)
+        entry_points_legacy_steps(rep)
     return rep.finish(write=False)
